@@ -329,29 +329,32 @@ func (comp *Compiler) createRangeBdry(node parse.Node,
 	var start, end interface{}
 	rangeBdrySlice = base_rb.Create(0, len(parsed_rbs))
 	for _, parsedRangeBdry := range parsed_rbs {
-		if parsedRangeBdry.Min {
+		switch {
+		case parsedRangeBdry.Min:
 			start = base_min
-		} else {
+		case parsedRangeBdry.MaxStart:
+			start = base_max
+		default:
 			start, err = rangeBdrySlice.Parse(parsedRangeBdry.Start, 0, 64)
 			if err != nil {
 				comp.error(node, err)
 			}
-			if rangeBdrySlice.LessThan(start, base_min) {
-				comp.error(node, errors.New(
-					"derived type range must be restrictive"))
-			}
 		}
-		if parsedRangeBdry.Max {
+		switch {
+		case parsedRangeBdry.Max:
 			end = base_max
-		} else {
+		case parsedRangeBdry.MinEnd:
+			end = base_min
+		default:
 			end, err = rangeBdrySlice.Parse(parsedRangeBdry.End, 0, 64)
 			if err != nil {
 				comp.error(node, err)
 			}
-			if rangeBdrySlice.GreaterThan(end, base_max) {
-				comp.error(node, errors.New(
-					"derived type range must be restrictive"))
-			}
+		}
+		if rangeBdrySlice.LessThan(start, base_min) ||
+			rangeBdrySlice.GreaterThan(end, base_max) {
+			comp.error(node, errors.New(
+				"derived type range must be restrictive"))
 		}
 
 		// Now we have our start and end, and know they are within the
@@ -2190,23 +2193,25 @@ func (c *Compiler) getLength(base schema.String, n parse.Node) *schema.Length {
 	var lb schema.Lb
 	//create schema length boundaries from parser values,
 	for _, p := range plbs {
-		if p.Min {
+		switch {
+		case p.Min:
 			lb.Start = imin
-		} else {
+		case p.MaxStart:
+			lb.Start = imax
+		default:
 			lb.Start = p.Start
-			if p.Start < imin {
-				c.error(n, errors.New(
-					"derived type length must be restrictive"))
-			}
 		}
-		if p.Max {
+		switch {
+		case p.Max:
 			lb.End = imax
-		} else {
+		case p.MinEnd:
+			lb.End = imin
+		default:
 			lb.End = p.End
-			if p.End > imax {
-				c.error(n, errors.New(
-					"derived type length must be restrictive"))
-			}
+		}
+		if lb.Start < imin || lb.End > imax {
+			c.error(n, errors.New(
+				"derived type length must be restrictive"))
 		}
 
 		var rangeMin, rangeMax uint64
